@@ -81,6 +81,10 @@ func (a Float) M__repr__() (Object, error) {
 // FloatFromString turns a string into a Float
 func FloatFromString(str string) (Object, error) {
 	str = strings.TrimSpace(str)
+	if strings.ContainsAny(str, "xX_pP") {
+		// hexadecimal floats and digit separators are not float() syntax
+		return nil, ExceptionNewf(ValueError, "invalid literal for float: '%s'", str)
+	}
 	f, err := strconv.ParseFloat(str, 64)
 	if err != nil {
 		if numErr, ok := err.(*strconv.NumError); ok {
